@@ -26,6 +26,7 @@ CONSTANTS
     SourceStrict,   \* mutant TRUE: source must be strictly greater than the watermark
     PropGE,         \* mutant TRUE: slot check is "<" instead of "<="
     GenesisRule,    \* mutant FALSE: (0,0) is not accepted
+    DeniedKeepsState, \* mutant FALSE: a request refused by the SOURCE check leaves its (already raised) target in the record
     GenericDeniesSlashable, \* mutant FALSE: generic endpoint signs attester/proposer domains
     AttestChecksDomain,     \* mutant FALSE: attestation/proposal endpoints accept any domain
     ExitIPCheck             \* mutant FALSE: voluntary exits signed for any source address
@@ -49,7 +50,12 @@ AttApproved(st, s, t, dom) ==
     /\ ((SourceChecked /\ Some(st.s)) => (IF SourceStrict THEN s > st.s ELSE s >= st.s))
 
 AttVerdict(st, s, t, dom) == IF AttApproved(st, s, t, dom) THEN "APPROVED" ELSE "DENIED"
-AttNext(st, s, t, dom) == IF AttApproved(st, s, t, dom) THEN [s |-> ToI64(s), t |-> ToI64(t)] ELSE st
+TargetPassed(st, s, t, dom) ==
+    /\ (AttestChecksDomain => dom = "att") /\ AttShapeOK(s, t) /\ (EpochGuard => (s <= MaxI /\ t <= MaxI))
+    /\ (Some(st.t) => (IF TargetGE THEN t >= st.t ELSE t > st.t))
+AttNext(st, s, t, dom) == IF AttApproved(st, s, t, dom) THEN [s |-> ToI64(s), t |-> ToI64(t)]
+                          ELSE IF ~DeniedKeepsState /\ TargetPassed(st, s, t, dom) THEN [st EXCEPT !.t = ToI64(t)]
+                          ELSE st
 
 (* ---- proposals ----------------------------------------------------------- *)
 PropApproved(ps, slot, dom) ==
